@@ -322,7 +322,7 @@ func runPCC(c *Ctx, pkgPaths []string) int {
 			n++
 			res := &pccResult{set: map[string]bool{}}
 			e.track(fn, call, d, 0, res, map[ssa.Value]bool{})
-			rootName := fnName(rootFn(fn))
+			rootName := pccSiteName(rootFn(fn))
 			perFn[rootName+"/"+T.Obj().Name()]++
 			name := fmt.Sprintf("fresh %s.%s #%d in %s", T.Obj().Pkg().Name(), T.Obj().Name(), perFn[rootName+"/"+T.Obj().Name()], rootName)
 			if res.complete {
